@@ -36,6 +36,8 @@ func (w *vWorld) blockAlloc(typeIndex int, size int, mappable bool, persistent b
 //	4: pool create || pool destroy (two different pools)
 //	5: CalculateStatistics || free
 //	6: free || free of two allocations sharing a block
+//	7: free || free of the only allocations of two different blocks of one pool (totals must equal a sequential execution:
+//	   exactly one spare empty block is kept)
 func Verif_C12_Pairs(cfg int) {
 	w := newWorld(12, 0)
 	size := verifNondetInt("size")
@@ -50,10 +52,24 @@ func Verif_C12_Pairs(cfg int) {
 	var pool1, pool2 *Pool
 	var e1, e2 error
 	var st AllocatorStatistics
+	var pa, pb *vAlloc
 	switch cfg {
 	case 4:
 		pool1, _, e1 = w.al.CreatePool(PoolCreateInfo{MemoryTypeIndex: tHostCoh, BlockSize: 256, MaxBlockCount: 2})
 		verifAssume(e1 == nil)
+	case 7:
+		pool1, _, e1 = w.al.CreatePool(PoolCreateInfo{MemoryTypeIndex: tHostCoh, BlockSize: 256, MaxBlockCount: 3})
+		verifAssume(e1 == nil)
+		w.pools = append(w.pools, pool1)
+		mk := func() *vAlloc {
+			reqs := core1_0.MemoryRequirements{Size: 200, Alignment: 1, MemoryTypeBits: 0xF}
+			x := &Allocation{}
+			_, err := w.al.AllocateMemory(&reqs, AllocationCreateInfo{Pool: pool1}, x)
+			verifAssume(err == nil)
+			return &vAlloc{a: x, reqSize: 200, reqAlign: 1, typeBits: 2, pool: pool1}
+		}
+		pa, pb = mk(), mk() // 200 bytes each: one allocation per 256-byte block
+		verifAssume(pool1.blockList.BlockCount() == 2)
 	}
 	var f1, f2 func()
 	switch cfg {
@@ -99,6 +115,9 @@ func Verif_C12_Pairs(cfg int) {
 	case 5:
 		f1 = func() { e1 = w.al.CalculateStatistics(&st) }
 		f2 = func() { e2 = b.a.Free() }
+	case 7:
+		f1 = func() { e1 = pa.a.Free() }
+		f2 = func() { e2 = pb.a.Free() }
 	default:
 		f1 = func() { e1 = a.a.Free() }
 		f2 = func() { e2 = b.a.Free() }
@@ -121,6 +140,10 @@ func Verif_C12_Pairs(cfg int) {
 	}
 	if pool2 != nil {
 		w.pools = append(w.pools, pool2)
+	}
+	if cfg == 7 {
+		// every sequential execution of the two frees keeps exactly one spare empty block
+		verifAssert("C12/totals-equal-a-sequential-execution: one-spare-block-after-concurrent-frees", pool1.blockList.BlockCount() == 1)
 	}
 	w.oracleC02("C12/invariants-after-the-goroutines-finished")
 	w.oracleC04("C12/totals-after-the-goroutines-finished")
